@@ -1079,6 +1079,14 @@ func (rl *Shell) shellBackwardKillWord() {
 	rl.cursor.ToFirstNonSpace(true)
 	bpos = rl.cursor.Pos()
 
+	// Only blanks before point: there is no word to kill.
+	if bpos >= startPos {
+		rl.selection.Reset()
+		rl.cursor.Set(startPos)
+
+		return
+	}
+
 	rl.Buffers.Write([]rune((*rl.line)[bpos:startPos])...)
 	rl.line.Cut(bpos, startPos)
 	rl.selection.Reset()
